@@ -58,12 +58,13 @@ void buildArgv(const Desc& d, Vec<Str>& av) {
 
 // ------------------------------------------------------------------------------------------------
 struct Features {
-    bool failures, throws, cfail, pluginErr, leaks, ptrs, plugins, filters, alphaNames, exampleFilters, special_xml, special_tc, clockFaults, prints, ignored, order, junit, teamcity, overflowPtr, procReal, procSyn;
+    bool failures, throws, cfail, pluginErr, leaks, ptrs, plugins, filters, alphaNames, exampleFilters, special_xml, special_tc, clockFaults, prints, ignored, order, junit, teamcity, overflowPtr, procReal, procSyn, abWords;
 };
 
 static Str pickName(Rng& r, const Features& f, const char* prefix, int idx, bool identifier) {
     // names for lifecycle style profiles are plain and unique; for selection they come from an alphabet with substring relations
     (void)identifier;
+    if (f.alphaNames && f.abWords) { Str s; int n = (int)r.range(1, 5); for (int i = 0; i < n; i++) s += (char)('a' + r.below(2)); return s; }   // words over {a,b}: needles that restart inside a partial match
     if (f.alphaNames) {
         static const char* const alpha[] = { "a", "ab", "abc", "b", "Ab", "bc", "c", "abcd", "x", "xa" };
         return alpha[r.below(10)];
@@ -111,6 +112,7 @@ void generate(uint64_t seed, const Str& profile, Desc& d, bool exceptions) {
     else if (profile == "process_syn") { f.procSyn = true; f.cfail = true; f.order = true; f.exampleFilters = true; }
     else { f.throws = exceptions; f.cfail = true; }
 
+    if (f.alphaNames && world.chance(1, 3)) f.abWords = true;
     // swarm: per run, switch individual op kinds off
     bool enFailCpp = world.chance(9, 10), enFailC = f.cfail && world.chance(8, 10), enThrow = f.throws && world.chance(7, 10);
     bool enPrint = f.prints && world.chance(1, 2), enClock = f.clockFaults && world.chance(1, 2);
@@ -300,7 +302,8 @@ void generate(uint64_t seed, const Str& profile, Desc& d, bool exceptions) {
             F.args.push_back(form >= 2 ? 1 : (int64_t)cfg.below(2));   // strict
             F.args.push_back(form >= 2 ? 0 : (int64_t)cfg.chance(1, 3)); // invert
             F.args.push_back(form); F.args.push_back((int64_t)cfg.below(2));
-            F.sargs.push_back(alpha[cfg.below(form == 0 ? 13 : 12)]); F.sargs.push_back(alpha[cfg.below(12)]);
+            if (f.abWords) { for (int q = 0; q < 2; q++) { Str wd; int n = (int)cfg.range(q == 0 && form == 0 ? 0 : 1, 4); for (int k = 0; k < n; k++) wd += (char)('a' + cfg.below(2)); F.sargs.push_back(wd); } }
+            else { F.sargs.push_back(alpha[cfg.below(form == 0 ? 13 : 12)]); F.sargs.push_back(alpha[cfg.below(12)]); }
             d.groups.push_back(F);
         }
     }
